@@ -696,6 +696,10 @@ func (hash *SexpHash) HashPairi(pos int) (*SexpPair, error) {
 		panic(fmt.Errorf("hpair internal error: could not get element at pos %d in lenKeyOrder=%d", pos, lenKeyOrder))
 	}
 
+	if ka, isArr := key.(*SexpArray); isArr {
+		// the caller's copy (hpair is what range iterates with)
+		key = copyArrayKey(ka, 0)
+	}
 	return Cons(key, &SexpPair{Head: val, Tail: SexpNull}), nil
 }
 
